@@ -27,5 +27,7 @@ TypeOKa ==
 IndInvA == TypeOKa /\ NoSecondLease /\ Honoured
 
 IndInit == L = Gen(4) /\ clock = Gen(1) /\ granted = Gen(4) /\ IndInvA
+\* base case and induction step in one query (quick tier): state 0 is an initial state or any IndInv state
+BaseOrIndInit == Init \/ IndInit
 Props == Honoured /\ NoSecondLease
 =============================================================================
